@@ -1002,6 +1002,8 @@ void Circuit::cullMuxConditionNegations(Subnet &subnet)
 	for (auto n : subnet) {
 		if (Node_Multiplexer *muxNode = dynamic_cast<Node_Multiplexer*>(n)) {
 			if (muxNode->getNumInputPorts() != 3) continue;
+			// Swapping the two inputs only undoes a negation of a single bit selector (a wider selector indexes, ~idx is not "the other input").
+			if (muxNode->getDriver(0).node == nullptr || getOutputWidth(muxNode->getDriver(0)) != 1) continue;
 
 			bool done;
 			do {
